@@ -166,23 +166,33 @@ theorem C16_rotate_retry_set :
        [69, 80, 69, 82, 77]] ∧        -- EPERM
     Clem.Gen.Logs.replaceRetriesPermissionError = true := by decide
 
-/-- **Negative (pinned tree).**  Full-strength statement, NOT a theorem of the code:
-`∀ fs b j i c, i ≠ b.toNat → fs i = some c → failState fs b j i = some c ∨ failState fs b j (i+1) = some c`.
-A rename that fails for good makes `atomic_replace` unlink its source: with `path, .1, .3` and
-3 backups, a persistent failure of `.1 → .2` (step index 1) loses generation `.1` (content 101),
-which is not the oldest. -/
-theorem C16_rotate_persistent_failure_loses_source_witness :
-    steps demoFS 3 = [.rm 3, .mv 1 2, .mv 0 1] ∧
-    (List.range 7).map (failState demoFS 3 1) = [some 100, none, none, none, none, some 105, none] ∧
-    nothingLostB demoFS (failState demoFS 3 1) 3 6 = false := by decide
+/-- **Persistent rename failure.**  When a rename of the cascade fails for good, the rotation stops
+with the source generation in place: the state is a legal intermediate state, nothing but the
+oldest generation is lost and nothing is invented — for every history and every failing step. -/
+theorem C16_rotate_persistent_failure_nothing_lost (fs : FS) (b : Int) (j i c : Nat)
+    (hi : i ≠ b.toNat) (hc : fs i = some c) :
+    failState fs b j i = some c ∨ failState fs b j (i + 1) = some c :=
+  C16_rotate_crash_nothing_lost fs b j i c hi hc
 
-theorem C16_rotate_persistent_failure_not_lossless :
-    ¬ (∀ (fs : FS) (b : Int) (j i c : Nat), i ≠ b.toNat → fs i = some c →
-        failState fs b j i = some c ∨ failState fs b j (i + 1) = some c) := by
-  intro h
-  have := h demoFS 3 1 1 101 (by decide) (by decide)
-  revert this
-  decide
+theorem C16_rotate_persistent_failure_legal (fs : FS) (b : Int) (j : Nat) :
+    failState fs b j = fs ∨ ∃ m, m ≤ b.toNat ∧ failState fs b j = shifted fs b.toNat m :=
+  C16_rotate_crash_legal fs b j
+
+/-- `rotate_one` asks the rename helper to keep its source on failure at every call, and the
+helper's clean-up unlink is guarded by that flag (tables regenerated from rotate_logs.py and
+io/atomic.py). -/
+theorem C16_rotate_keeps_source_on_failed_rename :
+    Clem.Gen.Logs.rotateKeepsSourceOnFailure = true ∧
+    Clem.Gen.Logs.replaceUnlinkGuardedByFlag = true := by decide
+
+/-- Regression witness: a helper that unlinks its source on failure (the behaviour before the
+fix) loses generation `.1` (content 101, not the oldest) when `.1 → .2` fails for good, and the
+monitor `nothingLostB` rejects that state. -/
+theorem C16_rotate_unlink_source_witness :
+    steps demoFS 3 = [.rm 3, .mv 1 2, .mv 0 1] ∧
+    (List.range 7).map (unlinkSourceState demoFS 3 1) = [some 100, none, none, none, none, some 105, none] ∧
+    nothingLostB demoFS (unlinkSourceState demoFS 3 1) 3 6 = false ∧
+    nothingLostB demoFS (failState demoFS 3 1) 3 6 = true := by decide
 
 /-! ### non-vacuity and concrete histories -/
 
